@@ -245,9 +245,9 @@ def direct_oracles(case, plines, widths):
 
 def tier_params(tier):
     if tier == 'thorough':
-        return dict(n_random=900, n_exh=3, n_rand_inputs=30, edge_inputs=80, max_alpha=4, per_crate=16, ctor_inputs=12, clone_inputs=8,
+        return dict(n_random=900, n_exh=3, n_rand_inputs=30, edge_inputs=80, max_alpha=4, per_crate=16, ctor_inputs=12, clone_inputs=8, spec_cases=200,
                     double_expand=10 ** 6, long_input=20000)
-    return dict(n_random=140, n_exh=2, n_rand_inputs=10, edge_inputs=30, max_alpha=4, per_crate=10, ctor_inputs=5, clone_inputs=3,
+    return dict(n_random=140, n_exh=2, n_rand_inputs=10, edge_inputs=30, max_alpha=4, per_crate=10, ctor_inputs=5, clone_inputs=3, spec_cases=40,
                 double_expand=24, long_input=3000)
 
 
@@ -467,6 +467,7 @@ def run_pipeline(tier, seed, log=lambda s: None):
     # model: stage + traces (on the dumped machine)
     t0 = time.time()
     lines = []
+    spec_of = {}
     for d in progs:
         nm = d['name']
         dd = dumps.get(nm)
@@ -475,7 +476,18 @@ def run_pipeline(tier, seed, log=lambda s: None):
         cs = allcases.get(nm, [])
         for c in cs:
             c['widths'] = impl.get((nm, c['id']), {}).get('widths', {})
-        lines += corpus.lexmodel_input(nm, def_lines(d), dd['body'], True, cs)
+        # the same cases on the EXECUTABLE SPECIFICATION (specNext: derivative-based maximal munch on the definition itself, proved sound
+        # w.r.t. the reference relation RefNext): short inputs, spread over the case list
+        pool = [c for c in cs if not c['clones'] and c['ctor'] <= 1 and len(c['input']) <= 24]
+        stride = max(1, len(pool) // p['spec_cases'])
+        spec_cs = []
+        for c in pool[::stride][:p['spec_cases']]:
+            e = dict(c)
+            e['id'] = c['id'] + 'S'
+            e['mach'] = 'spec'
+            spec_cs.append(e)
+        spec_of[nm] = {e['id'][:-1]: e['id'] for e in spec_cs}
+        lines += corpus.lexmodel_input(nm, def_lines(d), dd['body'], True, cs + spec_cs)
     rc, out, err = corpus.run_lexmodel(lines, timeout=3000)
     model_s = time.time() - t0
     log('model runs: %.1fs rc=%s' % (model_s, rc))
@@ -533,6 +545,22 @@ def run_pipeline(tier, seed, log=lambda s: None):
                         add_dis(res, prop, nm, c, 'implementation and model traces differ', il, mt)
             else:
                 counters['impl_model_equal'] += 1
+            # executable Lean specification (oracle, proved sound w.r.t. RefNext)
+            sid = spec_of.get(nm, {}).get(c['id'])
+            if sid is not None:
+                sl = mtr.get((nm, sid))
+                if sl is not None and not any(l.startswith('N NOMACHINE') or l.startswith('N HANG') for l in sl):
+                    counters['spec_cases'] = counters.get('spec_cases', 0) + 1
+                    psl = [parse_line(l) for l in sl]
+                    same = True
+                    for prop in TRACE_PROPS:
+                        if proj(prop, pil) != proj(prop, psl):
+                            same = False
+                            add_violation(res, prop, nm, c, 'implementation differs from the executable Lean specification (specNext, sound w.r.t. RefNext)', il, sl)
+                    if same:
+                        counters['impl_spec_equal'] = counters.get('impl_spec_equal', 0) + 1
+                elif sl is not None:
+                    counters['spec_unavailable'] = counters.get('spec_unavailable', 0) + 1
             # reference lexer (oracle)
             if ref is not None:
                 rl = ref.run(c['input'], c['script'], c['ncalls'], c['ctor'] <= 1, it['widths'])
